@@ -219,20 +219,17 @@ def pathFeeHops (g : Graph) : Nat → RPath → Option (List FeeHop)
     | some c, some rest => some ({ base := c.base, prop := c.prop, htlcMin := c.htlcMin } :: rest)
     | _, _ => none
 
-/-- `some true`: the path's `fee_msat`s are exactly what `recompute` yields for the delivered value;
-    `none`: not comparable (the final hop sits at its minimum, so the value the router called the
-    recurrence with is not observable) -/
+/-- `some true`: the path's `fee_msat`s are exactly what `recompute` yields for the value the path
+    delivers (whether or not the final hop was raised to its minimum: the raised value is a fixed
+    point of the recurrence); `some false` otherwise; `none` only for an empty path -/
 def pathMatchesRecurrence (g : Graph) (p : Params) (path : RPath) : Option Bool :=
+  if path.isEmpty then none else
   match pathFeeHops g p.payer path with
   | none => some false
   | some hops =>
-    match hops.getLast? with
+    match recompute (pathDelivered path) hops with
+    | some res => some (res.fees == path.map (·.fee))
     | none => some false
-    | some l =>
-      if pathDelivered path ≤ l.htlcMin then none
-      else match recompute (pathDelivered path) hops with
-        | some res => some (res.fees == path.map (·.fee))
-        | none => some false
 
 def recurrenceVerdict (g : Graph) (p : Params) (r : Route) : String :=
   let vs := r.map (pathMatchesRecurrence g p)
